@@ -64,10 +64,10 @@ CLAIMED = {
                 "tier guard depends (flow-sensitively) only on inputs the guard depends on; no wrapping arithmetic on an "
                 "unbounded signed/floating input feeds a modular reduction; every entry point refuses, on every "
                 "normally-returning path, through a sign test of the scale and through branches computed from the "
-                "scale and from the value(s) against the modulus size.",
+                "scale and from the value(s) against the modulus size. Also: the admissibility bit count carries the sign-bit allowance its formula needs and every float-to-integer cast fits its type under the branch guard.",
         "note": _TB + "Not decided: rounding, double-precision error of the embedding transform, FFT correctness, "
                 "slot order, consistency of RNS components as values.",
-        "technique": "flow-sensitive dependency comparison of guards and casts + guard dominance with scalar operands",
+        "technique": "flow-sensitive dependency comparison of guards and casts + guard dominance with scalar operands + bit-count formula / cast-width table",
         "design_ref": "DESIGN.md §3 R-GUARDDEP/R-CONTRA/R-GUARD, §4 C12",
     },
     "C13": {
@@ -89,10 +89,10 @@ CLAIMED = {
                 "formats, containers and RNS-plaintext wrappers) and per scheme projection: the writer's and the reader's "
                 "wire grammars are equal as trees (typed leaves in order, loop nesting, conditionals); the size function's "
                 "fixed byte count equals the writer's per conditional branch and has a variable term wherever the writer "
-                "loops; readers of possibly seed-compressed objects expand the seed before returning.",
+                "loops; readers of possibly seed-compressed objects expand the seed before returning. The size function is evaluated as a symbolic sum (lets, +=, loops, conditionals, fold) and private helpers are expanded in place on all three sides.",
         "note": _TB + "Not decided: equality of restored objects as values, numerical loop bounds, the closed-form "
                 "variable part of the size functions, reconstruction in an independently built context.",
-        "technique": "wire-grammar extraction from typed HIR with scheme projection; tree comparison of writer/reader/size",
+        "technique": "wire-grammar extraction from typed HIR with scheme projection; tree comparison of writer/reader/size + symbolic size sums",
         "design_ref": "DESIGN.md §3 R-WIRE, §4 C14",
     },
     "C15": {
@@ -131,10 +131,10 @@ CLAIMED = {
                 "applies a transform / RNS routine outside its domain, or returns lazy or wrongly flagged data; in the key-switch "
                 "back end every stage touching an RNS slot of the scratch product uses the same prime index at every "
                 "level (symbolic unification of slot and index expressions); in the add/sub back ends every transfer of the "
-                "second operand into the result is selected by the subtract flag, with different routines per mode.",
+                "second operand into the result is selected by the subtract flag, with different routines per mode. Also: the pairwise product tree of multiply_many stays in bounds for odd counts and keeps its intermediate products.",
         "note": _TB + "Not decided: exactness of the BEHZ steps, noise growth, the arithmetic of "
                 "balance_correction_factors, equality with the ring product.",
-        "technique": "symbolic buffer dimensions at call sites + operation-class delegation + symbolic metadata + representation typestate + slot/prime index unification + mode-flag control dependence",
+        "technique": "symbolic buffer dimensions at call sites + operation-class delegation + symbolic metadata + representation typestate + slot/prime index unification + mode-flag control dependence + counter-loop bound / dead-store contradiction",
         "design_ref": "DESIGN.md §3 R-SHAPE/R-FAMILY/R-METAFLOW/R-REPSTATE, §4 C02",
     },
     "C03": {
@@ -143,10 +143,10 @@ CLAIMED = {
                 "normally-returning path lacks a refusing branch on the levels of both ciphertexts, on the scales of "
                 "both operands, or on the resulting scale against the modulus size (interprocedural guard dominance); the scale recorded by "
                 "multiply / square / multiply_plain / rescale is the product or quotient the operation implies (symbolic "
-                "metadata); the shared key-switch and add/sub back ends satisfy the slot/prime and mode-flag rules of C02.",
+                "metadata); the shared key-switch and add/sub back ends satisfy the slot/prime and mode-flag rules of C02. Also: every is_scale_within_bounds test uses the context data of the level recorded on the result.",
         "note": _TB + "Not decided: the numerical error bound, the tolerance used when comparing scales, and the "
                 "floating-point value of the recorded scale (only its symbolic form over the operands' scales).",
-        "technique": "scheme-projected guard-dominance dataflow + symbolic metadata over typed HIR with callee summaries",
+        "technique": "scheme-projected guard-dominance dataflow + symbolic metadata over typed HIR with callee summaries + guard-argument / result-level agreement",
         "design_ref": "DESIGN.md §3 R-GUARD, §4 C03",
     },
     "C04": {
@@ -154,10 +154,10 @@ CLAIMED = {
                 "apply_galois_inplace show that, on both representation arms, the key switch receives G(c1) while "
                 "poly(0) holds G(c0) and poly(1) is zero; rotate_internal applies the element whose key it tested and "
                 "composes NAF components on the same ciphertext and key set; conjugation uses step 0; the Galois "
-                "permutation's length-guarded index is implied in-bounds by its guard.",
+                "permutation's length-guarded index is implied in-bounds by its guard. Also: every stage touching an RNS slot of the key-switch scratch product uses the same prime index; no sign test is applied to a value that can only be an absolute value (rotation-step decomposition).",
         "note": _TB + "Not decided: that X -> X^g permutes slots as documented, generator/NAF arithmetic, key-switch "
                 "noise, plaintext preservation under the new key.",
-        "technique": "symbolic reaching-definitions over structured HIR + structural pair agreement + guard/use contradiction",
+        "technique": "symbolic reaching-definitions over structured HIR + structural pair agreement + guard/use contradiction + slot/prime index unification + reaching-definition sign contradiction",
         "design_ref": "DESIGN.md §3 R-CONTRA, §4 C04",
     },
     "C05": {
@@ -167,20 +167,20 @@ CLAIMED = {
                 "object to a callee that, on every normally-returning path, moves it to next_context_data (so the "
                 "finite chain is walked strictly downward or the call refuses). Refusals: no normally-returning path of "
                 "the to-target forms lacks the upward test, none of the to-next/rescale forms lacks the last-level "
-                "test, and on the BFV and BGV projections the rescale entry points never return normally.",
+                "test, and on the BFV and BGV projections the rescale entry points never return normally. Also: in the kernels that drop the last prime no residue of the dropped prime enters another prime's arithmetic unreduced, and per-prime operands are taken at the slot's own index.",
         "note": _TB + "Not decided: preservation of the decrypted message, rounding bounds, BGV correction-factor "
                 "arithmetic. Interior mutability / external state in a loop condition yields `unresolved`, never an alarm.",
-        "technique": "loop-variant analysis on typed HIR (read/write sets, Freeze types) + interprocedural must-pass-through",
+        "technique": "loop-variant analysis on typed HIR (read/write sets, Freeze types) + interprocedural must-pass-through + symbolic slot/prime discipline",
         "design_ref": "DESIGN.md §3 R-LOOP, §4 C05",
     },
     "C06": {
         "text": "Decides the refusal clause for invalid / seed-compressed operands: for all public operations of "
                 "Evaluator, Encryptor, Decryptor and the decoders, every Ciphertext/Plaintext operand passes a "
                 "validity guard on every path before its first write or first arithmetic use (pre-effect dominance, "
-                "interprocedural value-identity tracking through clones and the in-place/destination/returning forms).",
+                "interprocedural value-identity tracking through clones and the in-place/destination/returning forms). Also: the validity predicates scan every residue (through file-local helpers) and refuse a BGV correction factor of 0 or >= t.",
         "note": _TB + "Not decided: bit-identity of the three API forms as values; validity of returned objects as a "
                 "value property. Out-parameters are recognised by the public naming contract (destination/result).",
-        "technique": "guard-dominance dataflow over typed HIR with callee summaries (refusing branches, value identity)",
+        "technique": "guard-dominance dataflow over typed HIR with callee summaries (refusing branches, value identity) + bound-form check",
         "design_ref": "DESIGN.md §3 R-GUARD/R-FORMS, §4 C06",
     },
     "C16": {
@@ -216,20 +216,20 @@ CLAIMED = {
                 "(2) the refusal clause: the revelation protocol's finish passes a completeness assertion over the "
                 "received slots before every summation and every normal return, and no protocol reads a revelation "
                 "round's result except through finish()/finish_take(); (3) a certificate that message handlers store "
-                "into slot[sender_id] only, so the final state is independent of delivery order.",
+                "into slot[sender_id] only, so the final state is independent of delivery order. Also: no field written by receive_X (transitively, through delegation and views) is read by send_X.",
         "note": _TB + "Not decided: that collective keys equal the sum-key objects, plaintext preservation of the "
                 "protocols, identical keys across parties as values.",
-        "technique": "scheme-projected sibling callee-set agreement + must-pass-through dominance + effect-summary certificate",
+        "technique": "scheme-projected sibling callee-set agreement + must-pass-through dominance + effect-summary certificate + access-path effect separation",
         "design_ref": "DESIGN.md §3 R-SCHEME/R-GUARD/R-COMMUTE, §4 C18",
     },
     "C20": {
         "text": "Decides for the matmul/conv2d helper structs: no buffer handed to an encoder has the global "
                 "counterpart of a block dimension as a length factor (it would exceed the slot count for every shape "
                 "the helper splits); the _bfv/_ckks twins of every helper method have identical integer skeletons; "
-                "output re-encoding stores each tensor cell exactly where output decoding loads it from.",
+                "output re-encoding stores each tensor cell exactly where output decoding loads it from. Also: channel-slot conservation of the packed 2-D convolution (slot(weights) + slot(inputs) == slot read by the decoder) as a polynomial identity.",
         "note": _TB + "Not decided: equality with the plaintext product/correlation, block-search optimality, the BOLT "
                 "helpers' modular slot arithmetic beyond twin agreement.",
-        "technique": "symbolic length factors + canonicalised index-expression agreement between sibling methods",
+        "technique": "symbolic length factors + canonicalised index-expression agreement between sibling methods + cross-function polynomial identity",
         "design_ref": "DESIGN.md §3 R-ENCBOUND/R-INDEXPAIR, §4 C20",
     },
 }
